@@ -47,7 +47,7 @@ import core
 from props import c06 as base
 
 LEAN_MODULE = "Optyx.Props.C20"
-EXTRA_MODULES = ["Optyx.Props.PinsC20", "Optyx.Props.BuildTie", "Optyx.Props.HookTie"]   # transcription anchors (harness/source_pins.py)
+EXTRA_MODULES = ["Optyx.Props.PinsC20", "Optyx.Props.BuildTie", "Optyx.Props.HookTie", "Optyx.Props.ScaledTie"]   # transcription anchors (harness/source_pins.py)
 THEOREMS = [
     "Optyx.Props.C20.hook_restored",
     "Optyx.Props.C20.reclimit_unchanged",
@@ -66,6 +66,9 @@ THEOREMS = [
     "Optyx.Props.HookTie.limit_restored_of_source_shape",
     "Optyx.Props.HookTie.limit_raised_inside_block",
     "Optyx.Props.HookTie.globalStateSites_spec",
+    "Optyx.Props.ScaledTie.scaledEntry_eq",
+    "Optyx.Props.ScaledTie.scaledLoop_step",
+    "Optyx.Props.ScaledTie.scaledPattern_frame",
     "Optyx.Props.PinsC20.anchors",
 ]
 ASSUMPTIONS = [
